@@ -87,14 +87,15 @@ NOT_YET = {
 
 # Later additions (appended to the text) and replaced notes, kept apart so that the history of a claim stays readable.
 EXTRA_TEXT = {
- "C01": " Added: the replayed row of a link stores the link path in the spelling lookups use (UpsertHeader sanitises name and link path alike); bounded stand-in sql:LinkListing runs the real persister on real SQLite in both index layouts (creating instance / rebuilt by replay).",
- "C02": " Added: a rename's children keep their relative names (new name = destination + stored name minus source prefix, for every spelling of the two); every delete operation issued by Rename and Remove goes through the guarded remove, which deletes a directory only after its listing came back empty and deletes exactly the named entry; Rename(x, x) removes nothing; the root is never removed; O_CREATE|O_EXCL refuses an existing entry; a handle entering write mode loads the existing content whenever a fresh lookup reports a non-empty file.",
- "C03": " Added: content completeness as a postcondition of recovery.Fetch over a history ghost (a regular member is reported restored only if a complete copy drained the verifier stream into the destination), the read pipeline wiring (decrypt the tape stream, decompress the decrypted stream, verify the decompressed stream, each with the configured format) and the write pipeline wiring in Archive/Update (compress into the encryptor, sign the source, whole source through the pipeline before Flush, configured formats and recipient, same compression level, drive kind and record size in the measuring and the writing pass); the codec suffix is never stripped from deletion, move or metadata-only records.",
+ "C04": " Added: Restore fetches each row at that row's own position (position and destination handed to Fetch belong to one element of the row list, stated without naming the loop variable). Bounded stand-in ioext:Counters (labelled bounded, not proved): the byte counters of internal/ioext (the handle's read cursor, the drive position on tapes) grow by exactly the count the wrapped stream delivered, for every script of <= 3 calls (thorough 4), buffer lengths 0..4, every delivered count and nil/EOF/other error.",
+ "C01": " Added: the replayed row of a link stores the link path in the spelling lookups use (UpsertHeader sanitises name and link path alike); bounded stand-in sql:LinkListing runs the real persister on real SQLite in both index layouts (creating instance / rebuilt by replay). The in-memory headers the write operations hand to the indexer are copied before sealing and carry the action record (what a replay reads back after unwrapping).",
+ "C02": " Added: a rename's children keep their relative names (new name = destination + stored name minus source prefix, for every spelling of the two); every delete operation issued by Rename and Remove goes through the guarded remove, which deletes a directory only after its listing came back empty and deletes exactly the named entry; Rename(x, x) removes nothing; the root is never removed; O_CREATE|O_EXCL refuses an existing entry; a handle entering write mode loads the existing content whenever a fresh lookup reports a non-empty file. A successful sync of a handle in write mode issues exactly one update operation (ghost opUpdates), whatever was or was not written through the handle since (O_TRUNC at open reaches the tape).",
+ "C03": " Added: content completeness as a postcondition of recovery.Fetch over a history ghost (a regular member is reported restored only if a complete copy drained the verifier stream into the destination), the read pipeline wiring (decrypt the tape stream, decompress the decrypted stream, verify the decompressed stream, each with the configured format) and the write pipeline wiring in Archive/Update (compress into the encryptor, sign the source, whole source through the pipeline before Flush, configured formats and recipient, same compression level, drive kind and record size in the measuring and the writing pass); the codec suffix is never stripped from deletion, move or metadata-only records. Bounded stand-in ioext:Counters (labelled bounded, not proved): the byte counters of internal/ioext (the handle's read cursor, the drive position on tapes) grow by exactly the count the wrapped stream delivered, for every script of <= 3 calls (thorough 4), buffer lengths 0..4, every delivered count and nil/EOF/other error.",
  "C06": " Added: restoring a member whose content was cut short cannot report success (same history-ghost postcondition of Fetch as C03); reachability cover for the resynchronisation branch.",
  "C12": " Added: the children of a recursive Delete/Move come from the subtree query (not the one-level listing); Delete/Move records name exactly the stored rows; Rename rejects a destination inside the source by the *stored* names of source and destination parent (any spelling) and replaces an existing destination only through the guarded remove; bounded stand-ins now cover both index layouts and self-similar nesting.",
- "C13": " Added: Mkdir, OpenFile(O_CREATE), MkdirAll (every prefix) and Rename create or move entries only below an entry a lookup has just shown to be a directory; syncing an open file writes only if a lookup has just shown the entry to exist (no resurrection after remove); bounded stand-ins: exact one-level listings over self-similar names in both index layouts, links listed once with their target's attributes.",
- "C14": " Added: entering write mode keeps the cursor (writes continue where reads left off) and empties the buffer under O_TRUNC; O_TRUNC takes effect at open; ReadAt saves, sets and restores the cursor; the in-memory write cache's Write is proved against the byte-array view the file layer assumes (overwrite in place, cursor advances by the bytes written, length grows exactly to the new cursor).",
- "C16": " Added: Initialize creates a root only when a root lookup has just reported that the index (rebuilt from whatever tape was readable) has none -- also after a rebuild that ended in an error (torn tail).",
+ "C13": " Added: Mkdir, OpenFile(O_CREATE), MkdirAll (every prefix) and Rename create or move entries only below an entry a lookup has just shown to be a directory; syncing an open file writes only if a lookup has just shown the entry to exist (no resurrection after remove); bounded stand-ins: exact one-level listings over self-similar names in both index layouts, links listed once with their target's attributes. Every lookup of a creating or removing method lies in the critical section (filesystem lock held) that also appends the record.",
+ "C14": " Added: entering write mode keeps the cursor (writes continue where reads left off) and empties the buffer under O_TRUNC; O_TRUNC takes effect at open; ReadAt saves, sets and restores the cursor; the in-memory write cache's Write is proved against the byte-array view the file layer assumes (overwrite in place, cursor advances by the bytes written, length grows exactly to the new cursor). Bounded stand-in ioext:Counters (labelled bounded, not proved): the byte counters of internal/ioext (the handle's read cursor, the drive position on tapes) grow by exactly the count the wrapped stream delivered, for every script of <= 3 calls (thorough 4), buffer lengths 0..4, every delivered count and nil/EOF/other error.",
+ "C16": " Added: Initialize creates a root only when a root lookup has just reported that the index (rebuilt from whatever tape was readable) has none -- also after a rebuild that ended in an error (torn tail). The rebuild closures of Initialize decrypt and verify with the read side's format and keys.",
 }
 NOTE_OVERRIDE = {
  "C02": "Undecided: full reject/accept tables of DESIGN 4.2 against the reference semantics (only the clauses above), names preserved across attribute changes, OpenFile(O_CREATE|O_EXCL) on a missing file reports not-exist (outside the flags the property lists). Counter-models of these obligations are replayed by running scripted histories next to the OS filesystem (battery `tree`).",
